@@ -19,15 +19,16 @@ theorem nodup_replace {α : Type} {A C N : List α} {x : α} (h : (A ++ x :: C).
   exact List.Perm.append_right _ List.perm_append_comm
 
 /-- the in-place branch -/
-theorem OInv.resolveInline {E Y b ys B1 B2 tail σ p rest I fb segsT psC}
-    (h : OInv E Y b ys (B1 ++ Item.seg (Seg.hole I fb) :: B2) tail [] σ) (hpo : b.pendingOoo = p :: rest)
+theorem OInv.resolveInline {S prog done Y b ys B1 B2 tail p rest I fb segsT psC}
+    (h : OInv S prog done Y b ys (B1 ++ Item.seg (Seg.hole I fb) :: B2) tail []) (hpo : b.pendingOoo = p :: rest)
     (hpI : p.id = some I) (htail : segsStr tail = [])
     (hokT : ∀ g ∈ segsT, g.ok) (hlink : (holeIds segsT).map some = psC.map (·.id)) (hokC : ∀ q ∈ psC, NodeOk q)
-    (hfill : ∀ σ', Knows σ' psC → fill σ' segsT = nodeDoc p)
+    (hfill : ∀ done', (∀ x ∈ done, x ∈ done') → ∀ σ', Adm S done' σ' segsT psC → S.P done' p.body (fill σ' segsT))
+    (hready : ∀ x ∈ p.fut.deps, x ∈ done)
     (hshape : ∀ i ∈ holeIds segsT, ∃ j, 1 ≤ j ∧ i = I ++ [j]) (hndC : (holeIds segsT).Nodup) :
-    ∃ σ', OInv E Y { b with syncBuf := itemsStr B1 ++ segsStr segsT ++ itemsStr B2,
-                            chunks := psC.reverse.map Chunk.ooo, pendingOoo := rest }
-      ys (B1 ++ segItems segsT ++ B2) tail psC.reverse σ' := by
+    OInv S prog done Y { b with syncBuf := itemsStr B1 ++ segsStr segsT ++ itemsStr B2,
+                                 chunks := psC.reverse.map Chunk.ooo, pendingOoo := rest }
+      ys (B1 ++ segItems segsT ++ B2) tail psC.reverse := by
   have hholeT : holeIds tail = [] := holeIds_of_empty htail
   have hpmem : p ∈ [] ++ b.pendingOoo := by simp [hpo]
   have hnd := h.ndText
@@ -47,7 +48,7 @@ theorem OInv.resolveInline {E Y b ys B1 B2 tail σ p rest I fb segsT psC}
     · exact Or.inl (Or.inl (Or.inr (Or.inl hm)))
     · exact Or.inl (Or.inl (Or.inr (Or.inr (Or.inl hm))))
     · exact Or.inl (Or.inl (Or.inr (Or.inr (Or.inr hm))))
-  refine OInv.resolved (b' := { b with syncBuf := itemsStr B1 ++ segsStr segsT ++ itemsStr B2, chunks := psC.reverse.map Chunk.ooo, pendingOoo := rest }) h hpo hpI htail hokT hlink hokC hfill hshape hndC
+  refine OInv.resolved (b' := { b with syncBuf := itemsStr B1 ++ segsStr segsT ++ itemsStr B2, chunks := psC.reverse.map Chunk.ooo, pendingOoo := rest }) h hpo hpI htail hokT hlink hokC hfill hready hshape hndC
     ?_ h.hP ?_ rfl (List.reverse_perm _) ?_ ?_ ?_ ?_ ?_ ?_ ?_
   · simp [itemsStr_append, itemsStr_segItems]
   · simp [tailChunk, htail]
@@ -109,15 +110,16 @@ theorem OInv.resolveInline {E Y b ys B1 B2 tail σ p rest I fb segsT psC}
     cases hq
 
 /-- the `<template>` branch -/
-theorem OInv.resolveTemplate {E Y b ys bs tail σ p rest I segsT psC}
-    (h : OInv E Y b ys bs tail [] σ) (hpo : b.pendingOoo = p :: rest)
+theorem OInv.resolveTemplate {S prog done Y b ys bs tail p rest I segsT psC}
+    (h : OInv S prog done Y b ys bs tail []) (hpo : b.pendingOoo = p :: rest)
     (hpI : p.id = some I) (htail : segsStr tail = []) (hInot : I ∉ allIds bs)
     (hokT : ∀ g ∈ segsT, g.ok) (hlink : (holeIds segsT).map some = psC.map (·.id)) (hokC : ∀ q ∈ psC, NodeOk q)
-    (hfill : ∀ σ', Knows σ' psC → fill σ' segsT = nodeDoc p)
+    (hfill : ∀ done', (∀ x ∈ done, x ∈ done') → ∀ σ', Adm S done' σ' segsT psC → S.P done' p.body (fill σ' segsT))
+    (hready : ∀ x ∈ p.fut.deps, x ∈ done)
     (hshape : ∀ i ∈ holeIds segsT, ∃ j, 1 ≤ j ∧ i = I ++ [j]) (hndC : (holeIds segsT).Nodup) :
-    ∃ σ', OInv E Y { b with syncBuf := itemsStr bs ++ (Tpl.mk I segsT).str,
-                            chunks := psC.map Chunk.ooo, pendingOoo := rest }
-      ys (bs ++ [Item.tpl ⟨I, segsT⟩]) tail psC σ' := by
+    OInv S prog done Y { b with syncBuf := itemsStr bs ++ (Tpl.mk I segsT).str,
+                                 chunks := psC.map Chunk.ooo, pendingOoo := rest }
+      ys (bs ++ [Item.tpl ⟨I, segsT⟩]) tail psC := by
   have hholeT : holeIds tail = [] := holeIds_of_empty htail
   have hpmem : p ∈ [] ++ b.pendingOoo := by simp [hpo]
   have hcont : contentIds bs = [] := by
@@ -130,7 +132,7 @@ theorem OInv.resolveTemplate {E Y b ys bs tail σ p rest I segsT psC}
     intro K hK hm
     obtain ⟨j, _, rfl⟩ := hshape K hK
     exact h.fresh p hpmem I hpI _ hm (pp_snoc I j)
-  refine OInv.resolved (b' := { b with syncBuf := itemsStr bs ++ (Tpl.mk I segsT).str, chunks := psC.map Chunk.ooo, pendingOoo := rest }) h hpo hpI htail hokT hlink hokC hfill hshape hndC
+  refine OInv.resolved (b' := { b with syncBuf := itemsStr bs ++ (Tpl.mk I segsT).str, chunks := psC.map Chunk.ooo, pendingOoo := rest }) h hpo hpI htail hokT hlink hokC hfill hready hshape hndC
     ?_ h.hP ?_ rfl (List.Perm.refl _) ?_ ?_ ?_ ?_ ?_ ?_ ?_
   · simp [itemsStr_append, itemsStr, Item.str]
   · simp [tailChunk, htail]
@@ -176,22 +178,22 @@ theorem OInv.resolveTemplate {E Y b ys bs tail σ p rest I segsT psC}
 
 /-! ### one activation of `poll_next` -/
 
-def OStepSpec (E Y : Str) : Step → Prop
-  | .cont b' => ORel E Y b'
-  | .ret o b' => ORel E (Y ++ outStr o) b' ∧ o ≠ Poll.panic ∧ o ≠ Poll.stuck ∧
+def OStepSpec (S : Sem) (prog : List Op) (done : List FId) (Y : Str) : Step → Prop
+  | .cont b' => ORel S prog done Y b'
+  | .ret o b' => ORel S prog done (Y ++ outStr o) b' ∧ o ≠ Poll.panic ∧ o ≠ Poll.stuck ∧
       (o = Poll.done → b'.chunks = [] ∧ b'.pendingOoo = [] ∧ b'.syncBuf = [])
 
-theorem yieldStep_ooo {E Y b ys bs tail cs σ} (h : OInv E Y b ys bs tail cs σ) (o : Poll)
+theorem yieldStep_ooo {S prog done Y b ys bs tail cs} (h : OInv S prog done Y b ys bs tail cs) (o : Poll)
     (ho : o = Poll.pending ∨ (o = Poll.done ∧ b.chunks = [] ∧ b.pendingOoo = [])) :
-    OStepSpec E Y (yieldStep b o) := by
+    OStepSpec S prog done Y (yieldStep b o) := by
   unfold yieldStep
   split
   · rename_i hb
     have hb' : b.syncBuf = [] := by simpa using hb
     rcases ho with rfl | ⟨rfl, hc, hp⟩
-    · exact ⟨⟨ys, bs, tail, cs, σ, by simpa [outStr] using h⟩, by simp, by simp, by simp⟩
-    · exact ⟨⟨ys, bs, tail, cs, σ, by simpa [outStr] using h⟩, by simp, by simp, fun _ => ⟨hc, hp, hb'⟩⟩
-  · exact ⟨⟨ys ++ bs, [], tail, cs, σ, by simpa [outStr] using h.flush⟩, by simp, by simp, by simp⟩
+    · exact ⟨⟨ys, bs, tail, cs, by simpa [outStr] using h⟩, by simp, by simp, by simp⟩
+    · exact ⟨⟨ys, bs, tail, cs, by simpa [outStr] using h⟩, by simp, by simp, fun _ => ⟨hc, hp, hb'⟩⟩
+  · exact ⟨⟨ys ++ bs, [], tail, cs, by simpa [outStr] using h.flush⟩, by simp, by simp, by simp⟩
 
 theorem chunks_nil_iff {cs : List PendOoo} {t : Str} (h : cs.map Chunk.ooo ++ tailChunk t = []) : cs = [] ∧ t = [] := by
   simp only [List.append_eq_nil_iff, List.map_eq_nil_iff] at h
@@ -202,14 +204,18 @@ theorem chunks_nil_iff {cs : List PendOoo} {t : Str} (h : cs.map Chunk.ooo ++ ta
   · rename_i ht; simpa using ht
   · cases this
 
-theorem oooReady_ooo (env : Env) {E Y b ys bs tail σ p rest} (h : OInv E Y b ys bs tail [] σ)
-    (hpo : b.pendingOoo = p :: rest) (htail : segsStr tail = []) :
-    OStepSpec E Y (oooReadyStep env { b with pendingOoo := rest } p) := by
+theorem oooReady_ooo (env : Env) {S prog done Y b ys bs tail p rest} (h : OInv S prog done Y b ys bs tail [])
+    (hpo : b.pendingOoo = p :: rest) (htail : segsStr tail = []) (hd : ∀ x ∈ env.done, x ∈ done)
+    (hrdy : p.fut.ready env p.born = true) :
+    OStepSpec S prog done Y (oooReadyStep env { b with pendingOoo := rest } p) := by
   have hpmem : p ∈ [] ++ b.pendingOoo := by simp [hpo]
   obtain ⟨hpok, I, hpI⟩ := h.okN p hpmem
   obtain ⟨segsT, psC, e_id, e_rep, e_non, e_ch, hokT, hlink, hokC, hfill, hshape, hndC⟩ :=
     resolveOoo_segs env p hpok I hpI
   have hholeT : holeIds tail = [] := holeIds_of_empty htail
+  have hready : ∀ x ∈ p.fut.deps, x ∈ done := fun x hx => hd x (ready_deps hrdy x hx)
+  have hfill' : ∀ done', (∀ x ∈ done, x ∈ done') → ∀ σ', Adm S done' σ' segsT psC → S.P done' p.body (fill σ' segsT) :=
+    fun done' hd' => hfill S done' (fun x hx => hd' x (hd x hx))
   have hbch : b.chunks = [] := by rw [h.hC]; simp [tailChunk, htail]
   have hcont : contentIds bs = [] := by
     cases hc : contentIds bs with
@@ -233,7 +239,7 @@ theorem oooReady_ooo (env : Env) {E Y b ys bs tail σ p rest} (h : OInv E Y b ys
     have hokB1 : ∀ i ∈ B1, i.ok := fun i hi => h.okI i (by simp [hi])
     have hfb : Clean fb := h.okI (Item.seg (Seg.hole I fb)) (by simp)
     have hfind := find_hole_items (B2 := B2) hokB1 hfb hnB1
-    obtain ⟨σ', hinv⟩ := OInv.resolveInline h hpo hpI htail hokT hlink hokC hfill hshape hndC
+    have hinv := OInv.resolveInline h hpo hpI htail hokT hlink hokC hfill' hready hshape hndC
     unfold oooReadyStep
     simp only [e_id, h.hB, hfind.1, hfind.2, e_rep]
     have hlen : ¬ (itemsStr B1 ++ opening (piecesStr I) ++ fb).length < (itemsStr B1).length := by
@@ -242,21 +248,21 @@ theorem oooReady_ooo (env : Env) {E Y b ys bs tail σ p rest} (h : OInv E Y b ys
     have hsp : spliceInPlace (resolveOoo env p).chunks = (segsStr segsT, psC.map Chunk.ooo) := by
       unfold spliceInPlace
       rw [e_ch, splice_resolved]; simp
-    show ORel E Y _
-    refine ⟨ys, B1 ++ segItems segsT ++ B2, tail, psC.reverse, σ', ?_⟩
+    show ORel S prog done Y _
+    refine ⟨ys, B1 ++ segItems segsT ++ B2, tail, psC.reverse, ?_⟩
     simp only [hsp, foldl_pushFront_eq, hbch]
     simpa [List.map_reverse] using hinv
   · -- the fallback has been sent: a `<template>` block is appended
     have hfree := free_marker_items (I := I) (fun i hi => h.okI i (by simp [hi])) hIb
-    obtain ⟨σ', hinv⟩ := OInv.resolveTemplate h hpo hpI htail hIb hokT hlink hokC hfill hshape hndC
+    have hinv := OInv.resolveTemplate h hpo hpI htail hIb hokT hlink hokC hfill' hready hshape hndC
     unfold oooReadyStep
     simp only [e_id, h.hB, splitFirst_none.2 hfree.1]
     have hsp : spliceTemplate (resolveOoo env p).chunks (itemsStr bs ++ pushStart (piecesStr I)) []
         = (itemsStr bs ++ pushStart (piecesStr I) ++ segsStr segsT, psC.map Chunk.ooo ++ []) := by
       unfold spliceTemplate
       rw [e_ch, splice_resolved]
-    show ORel E Y _
-    refine ⟨ys, bs ++ [Item.tpl ⟨I, segsT⟩], tail, psC, σ', ?_⟩
+    show ORel S prog done Y _
+    refine ⟨ys, bs ++ [Item.tpl ⟨I, segsT⟩], tail, psC, ?_⟩
     simp only [hbch, hsp, e_rep, e_non]
     simpa [Tpl.str] using hinv
 
@@ -270,8 +276,9 @@ theorem perm_rotate (p : PendOoo) (rest : List PendOoo) : ([] ++ (rest ++ [p])).
   simpa using this
 
 /-- **every activation of `poll_next` preserves the out-of-order invariant** -/
-theorem pollStep_ooo (env : Env) {E Y : Str} {b : Builder} (h : ORel E Y b) : OStepSpec E Y (pollStep env b) := by
-  obtain ⟨ys, bs, tail, cs, σ, h⟩ := h
+theorem pollStep_ooo (env : Env) {S : Sem} {prog : List Op} {done : List FId} {Y : Str} {b : Builder}
+    (hd : ∀ x ∈ env.done, x ∈ done) (h : ORel S prog done Y b) : OStepSpec S prog done Y (pollStep env b) := by
+  obtain ⟨ys, bs, tail, cs, h⟩ := h
   unfold pollStep
   simp only [h.hP]
   cases cs with
@@ -284,12 +291,12 @@ theorem pollStep_ooo (env : Env) {E Y : Str} {b : Builder} (h : ORel E Y b) : OS
       have hb' : itemsStr bs = [] := by rw [← h.hB]; simpa using hb
       have := h.perm cs0 (b.pendingOoo ++ [p]) (cs0.map Chunk.ooo ++ tailChunk (segsStr tail)) rfl
         (perm_move p cs0 b.pendingOoo) (by rw [(items_of_empty hb').2.2]; simp)
-      exact ⟨ys, bs, tail, cs0, σ, by simpa [h.hP] using this⟩
+      exact ⟨ys, bs, tail, cs0, by simpa [h.hP] using this⟩
     · -- yield the buffer
       have hf := h.flush
       have := hf.perm cs0 (b.pendingOoo ++ [p]) (cs0.map Chunk.ooo ++ tailChunk (segsStr tail)) rfl
         (perm_move p cs0 b.pendingOoo) (by simp [contentIds])
-      exact ⟨⟨ys ++ bs, [], tail, cs0, σ, by simpa [outStr, h.hP] using this⟩, by simp, by simp, by simp⟩
+      exact ⟨⟨ys ++ bs, [], tail, cs0, by simpa [outStr, h.hP] using this⟩, by simp, by simp, by simp⟩
   | nil =>
     by_cases ht : segsStr tail = []
     · have hch : b.chunks = [] := by rw [h.hC]; simp [tailChunk, ht]
@@ -301,7 +308,8 @@ theorem pollStep_ooo (env : Env) {E Y : Str} {b : Builder} (h : ORel E Y b) : OS
       | cons p rest =>
         simp only []
         split
-        · have := oooReady_ooo env h hpo ht
+        · rename_i hrdy
+          have := oooReady_ooo env h hpo ht hd hrdy
           simpa [h.hP, hch] using this
         · have hcont : ∀ I ∈ contentIds bs, ∃ q ∈ ([] : List PendOoo), q.id = some I := h.inTpl
           have := h.perm [] (rest ++ [p]) b.chunks (by rw [hch]; simp [tailChunk, ht])
@@ -314,11 +322,12 @@ theorem pollStep_ooo (env : Env) {E Y : Str} {b : Builder} (h : ORel E Y b) : OS
     · have hch : b.chunks = [Chunk.sync (segsStr tail)] := by
         rw [h.hC]; simp [tailChunk, ht]
       simp only [hch, coalesce]
-      exact ⟨ys, bs ++ segItems tail, [], [], σ, by simpa [h.hP] using h.takeTail⟩
+      exact ⟨ys, bs ++ segItems tail, [], [], by simpa [h.hP] using h.takeTail⟩
 
 /-- iterating the step -/
-theorem pollNext_ooo (env : Env) {E : Str} : ∀ (fuel : Nat) {Y : Str} {b : Builder}, ORel E Y b →
-    ORel E (Y ++ outStr (pollNext fuel env b).1) (pollNext fuel env b).2 ∧ (pollNext fuel env b).1 ≠ Poll.panic ∧
+theorem pollNext_ooo (env : Env) {S : Sem} {prog : List Op} {done : List FId} (hd : ∀ x ∈ env.done, x ∈ done) :
+    ∀ (fuel : Nat) {Y : Str} {b : Builder}, ORel S prog done Y b →
+    ORel S prog done (Y ++ outStr (pollNext fuel env b).1) (pollNext fuel env b).2 ∧ (pollNext fuel env b).1 ≠ Poll.panic ∧
     ((pollNext fuel env b).1 = Poll.done → (pollNext fuel env b).2.chunks = [] ∧
       (pollNext fuel env b).2.pendingOoo = [] ∧ (pollNext fuel env b).2.syncBuf = []) := by
   intro fuel
@@ -326,7 +335,7 @@ theorem pollNext_ooo (env : Env) {E : Str} : ∀ (fuel : Nat) {Y : Str} {b : Bui
   | zero => intro Y b h; exact ⟨by simpa [pollNext, outStr] using h, by simp [pollNext], by simp [pollNext]⟩
   | succ n ih =>
     intro Y b h
-    have hs := pollStep_ooo env h
+    have hs := pollStep_ooo env hd h
     unfold pollNext
     split
     · rename_i o b' heq
